@@ -135,6 +135,7 @@ type Options struct {
 	CutDepth int       // depth at which the tree is cut into shard prefixes
 	MaxViol  int       // stop after this many distinct violation signatures (default 20)
 	Samples  int       // number of sample executions to keep (default 4)
+	OnExec   func(vector []int) // called before every execution (crash isolation)
 }
 
 // Found is a violation together with the execution that shows it.
@@ -304,6 +305,9 @@ func Explore(body Body, opt Options) (st *Stats) {
 		for vec != nil {
 			// keep notes for the first few executions (samples), spread out
 			keep := len(st.Samples) < opt.Samples && (n == 0 || n == 7 || n == 101 || n == 1009 || n == 20011)
+			if opt.OnExec != nil {
+				opt.OnExec(vec)
+			}
 			res, c := r.run(vec, exp, keep)
 			n++
 			if n&0xff == 0 && !opt.Deadline.IsZero() && time.Now().After(opt.Deadline) {
